@@ -210,15 +210,12 @@ theorem flat_nested_calls {c : PCtx} {A B T U q g : String} {fs hs : List FieldS
       = .ok [respA q e.id (aG g e'.id ra ra')] := by
     have hhdr : (header c (rootStepN A B T U q g fs hs)).kind = .query := by
       simp [header, rootStepN, Step.ip, h.hkind]
-    have hnm : (header c (rootStepN A B T U q g fs hs)).name = none := by
-      simp [header, rootStepN, Step.ip, h.hname]
     have hev := eval_root_q (envOf SA D []) T q e (idField :: (leaves (fsA fs) ++ [Gown U g hs]))
       h.hqb h.hqn s.hqne s.hroot s.hent
     rw [houterA] at hev
     have hsels : (rootStepN A B T U q g fs hs).sels
         = [.field q q [] [] (.named T) [] (idField :: (leaves (fsA fs) ++ [Gown U g hs]))] := rfl
-    simp only [specDownstream, s.hsA, rqOf, List.map_cons, List.map_nil, hhdr, hnm, Option.getD_none, Spec.eval,
-      OpKind.rootName, hsels]
+    simp only [specDownstream, s.hsA, rqOf, List.map_cons, List.map_nil, hhdr, Spec.eval, OpKind.rootName, hsels]
     simp only [envOf] at hev
     rw [hev]
     simp [respA]
@@ -231,13 +228,12 @@ theorem flat_nested_calls {c : PCtx} {A B T U q g : String} {fs hs : List FieldS
     intro X ip xs ex rx hip hentx htyx hSX hndx hnnex hMx
     have hipe : ip.isEmpty = false := by cases ip with | nil => exact absurd rfl hip | cons _ _ => rfl
     have hhdr : (header c (stepAt B X ip xs)).kind = .query := by simp [header, stepAt, Step.ip, hipe]
-    have hnm : (header c (stepAt B X ip xs)).name = none := by simp [header, stepAt, Step.ip, hipe]
     have hval : evalSels (envOf SB D [("id", .str ex.id)]) (.ent ex.type ex.id ex.fields) (leaves xs) [] = some rx := by
       rw [evalSels_leaves _ _ _ hndx hnnex, leaves_at_service SB c.schema D _ []]; exact hMx
     have hnl := eval_node_lookup (envOf SB D [("id", .str ex.id)]) ex (leaves xs) rx hentx
       (by simp [envOf, J.lookup]) (by rw [htyx]; exact hSX) hval
     have hsels : (stepAt B X ip xs).sels = convertToNodeQuery X (leaves xs) := rfl
-    simp only [answerOf, lookupRq, rqOf, hhdr, hnm, Option.getD_none, Spec.eval, OpKind.rootName, hsels]
+    simp only [answerOf, lookupRq, rqOf, hhdr, Spec.eval, OpKind.rootName, hsels]
     rw [htyx] at hnl
     simp only [envOf] at hnl
     rw [hnl]
@@ -280,7 +276,7 @@ theorem flat_nested_calls {c : PCtx} {A B T U q g : String} {fs hs : List FieldS
       have hkfs := (names_subB fs).subset hk
       have hcons : J.keys (("id", J.str e.id) :: aG g e'.id ra ra') = "id" :: J.keys (aG g e'.id ra ra') := rfl
       rw [hcons, hkaG]
-      simp only [List.mem_cons, List.mem_append, List.mem_singleton, List.not_mem_nil, or_false, not_or]
+      simp only [List.mem_cons, List.mem_append, List.not_mem_nil, or_false, not_or]
       exact ⟨fun heq => h.hfid k hkfs heq, fun hkA' => names_disjAB fs h.hnd k hkA' hk,
         fun heq => h.hgnew (heq ▸ hkfs)⟩
     · intro k hk
@@ -327,5 +323,67 @@ theorem flat_nested_calls {c : PCtx} {A B T U q g : String} {fs hs : List FieldS
   refine ⟨outN g ra ra' rb rb', ra' ++ rb', hgw, ?_, hperm'⟩
   unfold outN
   exact (List.perm_middle).trans ((List.Perm.cons _ hperm).trans (List.perm_append_singleton _ _).symm)
+
+/-! ### the shape of the calls -/
+
+theorem fsB_ne_nil {fs : List FieldSpec} (h : ∃ f ∈ fs, f.2.2 = true) : fsB fs ≠ [] := by
+  obtain ⟨f, hf, hb⟩ := h
+  intro hnil
+  have : f ∈ fsB fs := by simp [fsB, hf, hb]
+  rw [hnil] at this; cases this
+
+theorem fsB_eq_nil {fs : List FieldSpec} (h : ∀ f ∈ fs, f.2.2 = false) : fsB fs = [] := by
+  simp only [fsB, List.filter_eq_nil_iff]
+  intro f hf; simp [h f hf]
+
+/-- both levels have a `B`-owned field: two calls, the second with TWO lookups -/
+theorem callsN_two (c : PCtx) (A B T U q g : String) (fs hs : List FieldSpec) (i i' : String)
+    (hT : fsB fs ≠ []) (hU : fsB hs ≠ []) :
+    callsN c A B T U q g fs hs i i' = [⟨A, [rqOf c (rootStepN A B T U q g fs hs) []]⟩,
+      ⟨B, [lookupRq c B T [q] (fsB fs) i, lookupRq c B U [q, g] (fsB hs) i']⟩] := by
+  unfold callsN batchN
+  cases hfb : fsB fs with
+  | nil => exact absurd hfb hT
+  | cons _ _ =>
+    cases hfb' : fsB hs with
+    | nil => exact absurd hfb' hU
+    | cons _ _ => rfl
+
+/-- only the outer level has a `B`-owned field: one lookup, for the entity under `q` -/
+theorem callsN_onlyT (c : PCtx) (A B T U q g : String) (fs hs : List FieldSpec) (i i' : String)
+    (hT : fsB fs ≠ []) (hU : fsB hs = []) :
+    callsN c A B T U q g fs hs i i' = [⟨A, [rqOf c (rootStepN A B T U q g fs hs) []]⟩,
+      ⟨B, [lookupRq c B T [q] (fsB fs) i]⟩] := by
+  unfold callsN batchN
+  rw [hU]
+  cases hfb : fsB fs with
+  | nil => exact absurd hfb hT
+  | cons _ _ => rfl
+
+/-- only the inner level has a `B`-owned field: one lookup, for the entity under `g` -/
+theorem callsN_onlyU (c : PCtx) (A B T U q g : String) (fs hs : List FieldSpec) (i i' : String)
+    (hT : fsB fs = []) (hU : fsB hs ≠ []) :
+    callsN c A B T U q g fs hs i i' = [⟨A, [rqOf c (rootStepN A B T U q g fs hs) []]⟩,
+      ⟨B, [lookupRq c B U [q, g] (fsB hs) i']⟩] := by
+  unfold callsN batchN
+  rw [hT]
+  cases hfb' : fsB hs with
+  | nil => exact absurd hfb' hU
+  | cons _ _ => rfl
+
+/-- `A` owns everything selected: one call -/
+theorem callsN_none (c : PCtx) (A B T U q g : String) (fs hs : List FieldSpec) (i i' : String)
+    (hT : fsB fs = []) (hU : fsB hs = []) :
+    callsN c A B T U q g fs hs i i' = [⟨A, [rqOf c (rootStepN A B T U q g fs hs) []]⟩] := by
+  unfold callsN batchN
+  rw [hT, hU]
+  rfl
+
+theorem lookupRq_vars (c : PCtx) (B T : String) (ip : List String) (bs : List FieldSpec) (i : String) :
+    (lookupRq c B T ip bs i).vars = [("id", .str i)] := rfl
+theorem lookupRq_sels (c : PCtx) (B T : String) (ip : List String) (bs : List FieldSpec) (i : String) :
+    (lookupRq c B T ip bs i).sels = convertToNodeQuery T (leaves bs) := rfl
+theorem rootRq_sels (c : PCtx) (A B T U q g : String) (fs hs : List FieldSpec) :
+    (rqOf c (rootStepN A B T U q g fs hs) []).sels = [QNown T U q g fs hs] := rfl
 
 end PebblesVerif.FlatNested
